@@ -124,8 +124,16 @@ type regEvent struct {
 	list      []string
 }
 
+// c17Epoch, when set, makes the decorations d1..d3 unique to the current execution (fresh-names families): a registry
+// that shares storage between EQUAL decoration values must not be helped by values left over from earlier executions.
+var c17Epoch string
+
 func decorFor(id int) decoration.Decoration {
-	return customFromMask(7 | 1<<(2+id)) // distinct per id (field 2+id set to its own glyph)
+	d := customFromMask(7 | 1<<(2+id)) // distinct per id (field 2+id set to its own glyph)
+	if c17Epoch != "" {
+		d.HBRight = fmt.Sprintf("<%s:%d>", c17Epoch, id)
+	}
+	return d
 }
 
 // c17Builtin is the init-time built-in that the builtin-name families overwrite (and restore through the public
@@ -331,7 +339,7 @@ func c17Linearizable(evs []regEvent, names []string, initial map[string]int) (bo
 var freshSerial int
 
 // c17FreshMenu: the operations whose behaviour can depend on a name being registered for the FIRST time.
-var c17FreshMenu = []c17Op{{"register", 0, 1}, {"register", 1, 2}, {"named", 0, 0}, {"list", 0, 0}, {"render", 0, 0}}
+var c17FreshMenu = []c17Op{{"register", 0, 1}, {"register", 1, 2}, {"register", 1, 1}, {"register", 0, 2}, {"named", 0, 0}, {"list", 0, 0}, {"render", 0, 0}}
 
 func runC17sched(x *X, family string, nthreads, opsPer int, bound int) {
 	runC17schedMenu(x, family, nthreads, opsPer, bound, c17Menu, false)
@@ -354,6 +362,8 @@ func runC17schedMenu(x *X, family string, nthreads, opsPer int, bound int, c17Me
 		if fresh {
 			freshSerial++
 			serial = fmt.Sprintf("fresh%07d", freshSerial)
+			c17Epoch = serial
+			defer func() { c17Epoch = "" }()
 		}
 		names := []string{"n" + serial, "m" + serial, "never" + serial}
 		builtin := strings.HasPrefix(family, "builtin-name")
@@ -617,12 +627,11 @@ func runC17(x *X) {
 	runC17sched(x, "3-threads-1-op", 3, 1, x.Pick(2, 4))
 	runC17sched(x, "builtin-name-3-threads-1-op", 3, 1, x.Pick(2, 3))
 	runC17sched(x, "2-threads-2-ops", 2, 2, x.Pick(3, 1000))
-	if vrt.ResetHook == nil {
-		// nothing can be removed from this registry: the families above start every execution with the names already
-		// registered.  First-time registrations are explored here, with names never used before in the process.
-		runC17schedMenu(x, "fresh-names-2-threads-2-ops", 2, 2, x.Pick(2, 3), c17FreshMenu, true)
-		runC17schedMenu(x, "fresh-names-3-threads-1-op", 3, 1, x.Pick(2, 3), c17FreshMenu, true)
-	}
+	// names AND decoration values never used before in the process: first-time registrations are explored even when
+	// nothing can be removed from the registry (fallback mode), and nothing an earlier execution left behind - a name the
+	// reset helper could not fully remove, a stored decoration value - can stand in for what this execution registers
+	runC17schedMenu(x, "fresh-names-2-threads-2-ops", 2, 2, x.Pick(1, 3), c17FreshMenu, true)
+	runC17schedMenu(x, "fresh-names-3-threads-1-op", 3, 1, x.Pick(2, 3), c17FreshMenu, true)
 	if x.Thorough() {
 		runC17sched(x, "3-threads-2-ops", 3, 2, 2)
 	}
@@ -865,7 +874,7 @@ func init() {
 		Technique: "stateless model checking of the real registry code under a cooperative scheduler (overlay-instrumented: sync shim + access hooks on mutable package-level variables), all interleavings per program; vector-clock race detection and brute-force linearizability against a sequential map; plus exhaustive sequential histories",
 		Rule: "family texttable-lifecycle: every sequence of <=5 (thorough 6) operations {set a known name, another known name, an unknown name, a custom decoration, register the unknown name, Render} on ONE long-lived TextTable (refuses to render exactly while its current name is unknown, otherwise renders with the current decoration); family sequential: every sequence of <=4 (thorough 5) operations from {Register(n,d1), Register(n,d2), Register(m,d1), Named(n), Named(never), List, List followed by the caller overwriting/appending to/sorting the returned slice, SetDecorationNamed(n)+Render, SetDecorationNamed(never)+Render} checked against a map model after each step (incl. fails-closed: unknown name => error and refused render); " +
 			"families 3-threads-1-op (9^3 programs, <=2 preemptions; thorough <=4), 2-threads-2-ops (9^4 programs, <=3 preemptions; thorough all), thorough 3-threads-2-ops (<=2 preemptions): names forced to collide, every schedule explored, each followed by final reads; " +
-			"fallback mode only (the overlay's registry reset helper unusable): families fresh-names-2-threads-2-ops and fresh-names-3-threads-1-op over a 5-op menu with names never registered before in the process (<=2 preemptions, thorough 3); " +
+			"families fresh-names-2-threads-2-ops (<=1 preemption, thorough 3) and fresh-names-3-threads-1-op (<=2, thorough 3) over a 7-op menu with names AND decoration values never used before in the process; " +
 			"oracle per schedule: no deadlock, no panic, no pair of conflicting accesses to the registry map unordered by happens-before, and the call/return history linearizable; non-trivial = every concurrent program; distinct by program and by observed outcome vector",
 		Assumptions: []string{"interleavings are explored at the granularity of hooked points (sync operations, accesses to package-level variables that are assigned outside init, harness yields); memory-model effects below that are only seen by the separate free-running -race pass",
 			"aliasing through pointers/method receivers and state inside the standard library are not instrumented", "the registry is process-global: every execution uses names unique to it"},
